@@ -34,8 +34,9 @@ type vfC11Kind struct {
 
 // vfC11KindList: the state of the "*-both" kinds implements both stream
 // interfaces. A dynamic method then runs as a producer (ProducerState is
-// tested first at init and on the pipe); a static registration runs in the
-// registered mode. The static "*-both" kinds are thorough-only.
+// tested first at init and on the pipe). Static registrations of such a state
+// run in the registered mode and are not enumerated (they would add ~45% to the
+// thorough space for a mode decision that does not look at the state type).
 func vfC11KindList() []vfC11Kind {
 	ks := []vfC11Kind{
 		{name: "producer", producer: true},
@@ -44,12 +45,6 @@ func vfC11KindList() []vfC11Kind {
 		{name: "dyn-exchange", dynamic: true},
 		{name: "dyn-exchange+inputschema", dynamic: true, dynInput: true},
 		{name: "dyn-both-interfaces", producer: true, dynamic: true, both: true},
-	}
-	if venum.Thorough() {
-		ks = append(ks,
-			vfC11Kind{name: "producer-both-interfaces", producer: true, both: true},
-			vfC11Kind{name: "exchange-both-interfaces", both: true},
-		)
 	}
 	return ks
 }
